@@ -18,6 +18,7 @@ CONSTANTS
   Limits,      \* set of max_connections values a behaviour may start with
   MaxDepth,    \* bound on the length of emitted driver-step sequences (0 = no bound)
   EmitCases,
+  Hows,        \* ways of ending a connection the behaviours may use: subset of {"respond","reset","clientClose","serverClose","inactive"}
   Dev          \* deviations (none recorded so far)
 
 VARIABLES
@@ -61,7 +62,7 @@ UpgradeFail(c) ==
 (* point of its life), closed by the server - the slot is freed                                                        *)
 Finish(c, how) ==
   /\ Bounded /\ conn[c] \in {"open", "inService"}
-  /\ how \in (IF KindOf[c] = "http" THEN {"respond", "reset"} ELSE {"clientClose", "reset", "serverClose"})
+  /\ how \in Hows \cap (IF KindOf[c] = "http" THEN {"respond", "reset"} ELSE {"clientClose", "reset", "serverClose", "inactive"})
   /\ conn' = [conn EXCEPT ![c] = "done"]
   /\ free' = free + 1
   /\ call' = [q \in Calls |-> IF ConnOfCall[q] = c /\ call[q] \notin {"unsent", "written"} THEN "lost" ELSE call[q]]
@@ -111,7 +112,7 @@ AcceptDone == /\ acceptLoop = "draining" /\ \A c \in Conns : conn[c] \notin {"op
 StoppedResolves == /\ acceptLoop = "done" /\ ~stoppedResolved /\ stoppedResolved' = TRUE
                    /\ UNCHANGED <<limit, free, conn, call, stop, acceptLoop, path>>
 
-GuardActs == \E c \in Conns : Open(c) \/ UpgradeFail(c) \/ \E how \in {"respond", "reset", "clientClose", "serverClose"} : Finish(c, how)
+GuardActs == \E c \in Conns : Open(c) \/ UpgradeFail(c) \/ \E how \in Hows : Finish(c, how)
 StopActs == \/ \E q \in Calls : PeerSends(q) \/ ReaderTakes(q) \/ HandlerStarts(q) \/ HandlerFinishes(q) \/ Enqueue(q) \/ WriterSends(q)
             \/ Stop \/ AcceptStops \/ AcceptDone \/ StoppedResolves
             \/ \E c \in Conns : ConnNoticesStop(c) \/ ConnDone(c)
